@@ -52,6 +52,7 @@ var commands = map[string]command{
 	"parser-trace":        parserTrace,
 	"selfcert-replay":     selfcertReplay,
 	"hash-replay":         hashReplay,
+	"versions-replay":     versionsReplay,
 	"chain-replay":        chainReplay,
 	"client-replay":       clientReplay,
 	"transform-replay":    transformReplay,
